@@ -69,6 +69,7 @@ def call_builtin(world, eng, p, h, args, kws):
         if isinstance(x, EventV): return [(p, EvClass(x.kind, x.fields))]
         if isinstance(x, SVal): return [(p, SType(x))]
         if isinstance(x, Host) and x.kind == 'foreign': return [(p, PyType('foreign'))]
+        if isinstance(x, Host) and x.kind == 'opaque': return [(p, PyType('opaque_object'))]
         t = static_type(p, x)
         if t is None: raise Unsupported(f'type({x!r})')
         return [(p, PyType(t))]
@@ -158,7 +159,7 @@ def call_builtin(world, eng, p, h, args, kws):
             p.pc.append(Not(V.is_VSent(r.t)))
         p.calls.append(('deepcopy', (x,), r))
         return [(p, r)]
-    if n in ('collections.deque', 'builtins.set', 'array.array', 'io.BytesIO', 'builtins.dict'):
+    if n in ('collections.deque', 'builtins.set', 'array.array', 'io.BytesIO', '_io.BytesIO', 'builtins.dict'):
         from . import heapmodels
         return heapmodels.construct(eng, p, n, args, kws)
     if n == 'builtins.sum':
@@ -169,7 +170,7 @@ def call_builtin(world, eng, p, h, args, kws):
         return heapmodels.sorted_of(eng, p, args, kws)
     if n == 'builtins.zip' or n == 'builtins.getattr' or n == 'builtins.hasattr':
         raise Unsupported(n)
-    if n.startswith('zlib.') or n.startswith('zstandard.') or n.startswith('codecs.') or 'orjson' in n or n.startswith('json.') or n.startswith('_codecs') or n.startswith('zstd') or 'backend_c' in n:
+    if n.startswith('pyarrow') or n.startswith('zlib.') or n.startswith('zstandard.') or n.startswith('codecs.') or 'orjson' in n or n.startswith('json.') or n.startswith('_codecs') or n.startswith('zstd') or 'backend_c' in n:
         from . import libmodels
         return libmodels.call(world, eng, p, h, args, kws)
     if n == 'math.sqrt':
